@@ -18,7 +18,62 @@ DEFAULT_KEYS = ['sps', 'R', 'fs', 'dt', 'wavelength', 'f0', 'N', 't', 'dw', 'w']
 
 
 # ------------------------------------------------------------------ alphabet
-def alphabet(tier):
+# An action is  ('clean', {})                 gv.clean()
+#               ('call', kw)                  gv(**kw)
+#               ('pos', args, kw)             gv(*args, **kw)   (documented order: sps, R, fs, wavelength, N)
+#               ('failclean', kw)             gv(**kw) that raises half-way (or is odd), followed by gv.clean()
+# Values are plain data; a pair ('@kind', x) stands for a typed scalar / special value that is built at call time (`real`),
+# so that histories stay picklable, printable and re-evaluable from a violation message.
+T3 = 3.75e-10                 # slot period of R3
+R3 = 1e9 * 8 / 3              # 2666666666.6666665
+R4 = 1 / (1e-9 / 3)           # 2999999999.9999995
+ARG_ORDER = ('sps', 'R', 'fs', 'wavelength', 'N')
+_TOKENS = {'@i64': np.int64, '@i32': np.int32, '@u8': np.uint8, '@f64': np.float64, '@f32': np.float32, '@0d': np.array,
+           '@array': lambda n: np.arange(n) * 0.5, '@callable': lambda name: getattr(math, name),
+           '@lambda': lambda k: (lambda z: k * z), '@class': lambda name: getattr(np, name)}
+
+
+def real(v):
+    """value of an alphabet member at call time"""
+    if isinstance(v, tuple) and len(v) == 2 and isinstance(v[0], str) and v[0] in _TOKENS:
+        return _TOKENS[v[0]](v[1])
+    return v
+
+
+def kw_of(act):
+    """keyword form of a call action (positional arguments named in the documented order), typed values built"""
+    if act[0] == 'pos':
+        kw = {k: v for k, v in zip(ARG_ORDER, act[1]) if v is not None}
+        kw.update(act[2])
+    else:
+        kw = act[1]
+    return {k: real(v) for k, v in kw.items()}
+
+
+def commensurate(kw):
+    """the statement only speaks of commensurate rates: fs = sps*R when all three are given, fs/R a positive integer (up to the
+    rounding of the float quotient, NOT up to .5: fs/R = 4.5 is not commensurate) when R and fs are given"""
+    s, r, f = (real(kw.get(k)) for k in ('sps', 'R', 'fs'))
+    if s and r and f and abs(f - r * s) > 1e-6 * f:
+        return False
+    if r and f and not s and (abs(f / r - round(f / r)) > 1e-9 or round(f / r) < 1):
+        return False
+    return True
+
+
+def _mk(s=None, r=None, f=None, w=None, n=None, cu=None):
+    kw = {}
+    if s is not None: kw['sps'] = s
+    if r is not None: kw['R'] = r
+    if f is not None: kw['fs'] = f
+    if w is not None: kw['wavelength'] = w
+    if n is not None: kw['N'] = n
+    if cu: kw.update(cu)
+    return kw
+
+
+def core_alphabet(tier):
+    """full product of the core values of every argument"""
     sps = [None, 4, 8]
     # rates built from periods: mathematically commensurate (fs = 5 R) but the float quotient fs/R is 4.999999999999999
     R = [None, 1e9, 2e9, 1 / 100e-12]
@@ -30,47 +85,122 @@ def alphabet(tier):
         sps.append(16)
         N.append(8)
         custom += [{'beta': 'x'}, {'alpha': 0.25}, {'alpha': 0.5, 'beta': 'x'}]
-    acts = []
-    for s, r, f, w, n, cu in itertools.product(sps, R, fs, wl, N, custom):
-        if s and r and f and abs(f - r * s) > 1e-6 * f:
-            continue  # not commensurate: the statement only speaks of commensurate rates
-        if r and f and not s and (abs(f / r - round(f / r)) > 1e-9 or round(f / r) < 1):
-            continue
-        kw = {}
-        if s is not None: kw['sps'] = s
-        if r is not None: kw['R'] = r
-        if f is not None: kw['fs'] = f
-        if w is not None: kw['wavelength'] = w
-        if n is not None: kw['N'] = n
-        if cu: kw.update(cu)
-        acts.append(('call', kw))
+    acts = [_mk(*c) for c in itertools.product(sps, R, fs, wl, N, custom)]
+    acts = [('call', kw) for kw in acts if commensurate(kw)]
     acts.sort(key=lambda a: (len(a[1]), repr(a[1])))
-    return [('clean', {})] + acts
+    return acts
+
+
+def extension(tier):
+    """members added by the hardening pass: every new value of one argument (or one new spelling of a call) is combined with a
+    small set of partner settings of the OTHER arguments instead of the full product"""
+    th = tier == 'thorough'
+    out = []
+
+    def cross(members, partners, kind='call'):
+        for m in members:
+            for p in partners:
+                if set(m) & set(p):
+                    continue
+                kw = dict(m); kw.update(p)
+                if commensurate(kw):
+                    out.append((kind, kw))
+
+    rates = [{'sps': 8, 'R': 1e9}, {'sps': 4, 'fs': 8e9}, {'R': 2e9, 'fs': 16e9}, {'fs': 8e9}, {'sps': 4}, {'R': 2e9}]
+    # 1. scalar kinds wherever a scalar is accepted: float-valued sps, numpy ints/floats, Python ints, 0-d arrays, float32
+    typed = [{'sps': 8.0, 'R': 1e9}, {'sps': ('@i64', 8), 'R': ('@f64', 1e9)}, {'sps': ('@i32', 4), 'fs': ('@f64', 8e9)},
+             {'R': 10 ** 9, 'fs': 8 * 10 ** 9}, {'sps': ('@0d', 8), 'R': ('@0d', 2e9)}, {'sps': ('@u8', 4), 'fs': ('@f32', 8e9)},
+             {'sps': 4.0}, {'R': 10 ** 9}, {'fs': 8 * 10 ** 9}, {'sps': 16.0, 'R': 10 ** 9, 'fs': 16e9}]
+    if th:
+        typed += [{'R': 2 * 10 ** 9, 'fs': ('@i64', 16 * 10 ** 9)}, {'R': ('@f32', 1e9), 'fs': ('@f32', 8e9)}, {'sps': ('@i64', 8)},
+                  {'R': ('@f64', 2e9)}, {'fs': ('@f64', 16e9)}]
+    cross(typed, [{}, {'N': 3}, {'N': ('@i64', 1), 'wavelength': ('@f64', 1310e-9)}] + ([{'N': ('@i32', 3), 'alpha': 0.5}] if th else []))
+    # 2. slot counts: numpy ints, even, large (N = 0 and non-integer N are outside the statement: dw = 2*pi*fs/(N*sps) is undefined)
+    cross([{'N': ('@i64', 3)}] + ([{'N': 2}, {'N': 1024}, {'N': ('@u8', 7)}] if th else []), [{}] + rates + [{'wavelength': 1310e-9}])
+    # 3. wavelengths: the default given explicitly, a third value, a numpy float
+    cross([{'wavelength': 1550e-9}] + ([{'wavelength': 850e-9}, {'wavelength': ('@f64', 1625e-9)}] if th else []),
+          [{}, {'N': 3}, {'sps': 8, 'R': 1e9}, {'alpha': 0.5}, {'fs': 8e9}])
+    # 4. commensurate rates whose float quotient / product is inexact in more ways (quotient one ulp BELOW and ABOVE the
+    #    integer, quotient exact but R*sps != fs, R = fs/sps inexact)
+    inexact = [{'R': R3, 'fs': 7 * R3}, {'R': R3, 'fs': 7 / T3}, {'R': R3, 'fs': 1 / (T3 / 3)}, {'sps': 3, 'fs': 8e9},
+               {'sps': 7, 'R': R3, 'fs': 7 / T3}, {'fs': 7 * R3}]
+    if th:
+        inexact += [{'R': R4, 'fs': 9e9}, {'R': 1 / 100e-12, 'fs': 1 / (100e-12 / 10)}]
+        inexact += [{'R': R3}, {'sps': 7, 'R': R3}, {'sps': 7, 'fs': 7 * R3}, {'fs': 7 / T3}, {'sps': 5, 'fs': 1 / (100e-12 / 5)}]
+        inexact += [{'R': 1 / T, 'fs': 1 / (T / k)} for T in (100e-12, 400e-12) for k in (11, 20)]
+        inexact += [{'R': R4, 'fs': 1 / (1e-9 / 3 / k)} for k in (5, 7, 13)] + [{'R': R3, 'fs': 1 / (T3 / k)} for k in (10, 19)]
+    cross(inexact, [{}, {'N': 3}, {'N': 1, 'alpha': 0.5}])
+    # 5. custom attributes set in several separate calls (all must disappear with clean()); thorough: updated, container-valued
+    cust = [{'beta': 'x'}, {'alpha': 0.5, 'beta': 'x'}]
+    cross(cust if not th else [{'gamma': (1, 2)}, {'gamma': None}], [{}, {'N': 3}, {'sps': 8, 'R': 1e9}, {'wavelength': 1310e-9}, {'fs': 16e9}])
+    # 6. positional spellings
+    pos = [(8, 1e9), (8.0, 1e9), (4, None, 8e9), (None, 2e9, 16e9), (None, None, 8e9), (8, 2e9, None, 1310e-9), (8, 1e9, None, 1550e-9, 3),
+           (None, None, None, 1310e-9, 1), (None, None, None, 1550e-9, None), 
+           (None, R3, 7 * R3), (7, R3, 7 / T3, 850e-9, 2)]
+    for a in pos:
+        out.append(('pos', a, {}))
+    out += [('pos', (('@i64', 4), ('@f64', 2e9)), {'N': ('@i64', 3)}), ('pos', (8,), {'R': 2e9, 'alpha': 0.5}), ('pos', (4, 2e9), {'N': 3, 'beta': 'x'}), ('pos', (None, 1e9), {'fs': 8e9, 'wavelength': 1310e-9})]
+    # 7. calls that fail half-way / odd calls, then clean(): clean() must restore EVERY default whatever was left behind
+    bad = [{'N': 2.5}, {'sps': 8, 'R': 1e9, 'N': 0}, {'sps': 4, 'R': 2e9, 'N': -1}, {'sps': 8, 'R': 'fast'}, {'sps': 4, 'fs': 8e9, 'wavelength': 0},
+           {'R': 1e9, 'fs': 0.2e9, 'N': 3, 'alpha': 0.5}, {'fs': 'x'}, {'sps': 8, 'R': 1e9, 'wavelength': '1550', 'beta': 'x'}, {'sps': -4, 'R': 1e9, 'N': 3},
+           {'R': 1e9, 'fs': 4.5e9, 'N': 2, 'gamma': (1, 2)}]
+    for kw in bad:
+        out.append(('failclean', kw))
+    seen, uniq = set(), []
+    for a in out:
+        if repr(a) not in seen:
+            seen.add(repr(a))
+            uniq.append(a)
+    return uniq
+
+
+def alphabet(tier):
+    return [('clean', {})] + core_alphabet(tier) + extension(tier)
 
 
 def apply(gv, act):
-    kind, kw = act
-    if kind == 'clean':
-        gv.clean()
-    else:
-        with warnings.catch_warnings():
-            warnings.simplefilter('ignore')
-            gv(**kw)
+    kind = act[0]
+    with warnings.catch_warnings():
+        warnings.simplefilter('ignore')
+        if kind == 'clean':
+            gv.clean()
+        elif kind == 'call':
+            gv(**{k: real(v) for k, v in act[1].items()})
+        elif kind == 'pos':
+            gv(*[real(v) for v in act[1]], **{k: real(v) for k, v in act[2].items()})
+        elif kind == 'failclean':
+            try:
+                with np.errstate(all='ignore'):
+                    gv(**{k: real(v) for k, v in act[1].items()})
+            except Exception:
+                pass
+            gv.clean()
+        else:
+            raise KeyError(kind)
 
 
 def enabled(gv, act):
     """the statement speaks of commensurate rates: an action that gives fs without R (and without sps) is only taken when fs
     is an integer multiple of the slot rate in force"""
-    kind, kw = act
-    if kind == 'call' and 'fs' in kw and 'R' not in kw and 'sps' not in kw:
-        q = kw['fs'] / gv.R
-        return round(q) >= 1 and abs(q - round(q)) <= 1e-9
+    if act[0] in ('call', 'pos'):
+        kw = kw_of(act)
+        if 'fs' in kw and 'R' not in kw and 'sps' not in kw:
+            q = float(kw['fs']) / float(gv.R)
+            return round(q) >= 1 and abs(q - round(q)) <= 1e-9
     return True
 
 
+def hard_reset():
+    """harness-side return to the initial state (does not rely on the clean() under test): every case starts from a singleton
+    whose attributes are exactly those of a newly constructed global_variables()"""
+    from opticomlib.typing import gv, global_variables
+    gv.__dict__.clear()
+    gv.__dict__.update(global_variables().__dict__)
+    return gv
+
+
 def replay(hist):
-    from opticomlib.typing import gv
-    gv.clean()
+    gv = hard_reset()
     for a in hist:
         apply(gv, a)
     return gv
@@ -86,26 +216,41 @@ class Model:
     def clean(self):
         self.N = None
         self.custom = {}
-        self.given = {}      # last explicitly given sps/R/fs since clean (must be in force if given in the LAST call)
 
     def step(self, act):
-        kind, kw = act
-        if kind == 'clean':
+        """returns the values explicitly given in this call (they must be in force right after it)"""
+        if act[0] in ('clean', 'failclean'):
             self.clean()
             return {}
+        kw = kw_of(act)
         if 'N' in kw:
             self.N = kw['N']
         for k, v in kw.items():
-            if k not in ('sps', 'R', 'fs', 'wavelength', 'N'):
+            if k not in ARG_ORDER:
                 self.custom[k] = v
-        return {k: kw[k] for k in ('sps', 'R', 'fs') if k in kw}
+        return {k: kw[k] for k in ('sps', 'R', 'fs', 'wavelength') if k in kw}
 
 
 def close(a, b, rt=1e-12):
+    a, b = float(a), float(b)
     return abs(a - b) <= rt * max(abs(a), abs(b), 1e-300)
 
 
-def invariant(gv, model: Model, last_given):
+def same_value(a, b):
+    if isinstance(a, np.ndarray) or isinstance(b, np.ndarray):
+        return isinstance(a, np.ndarray) and isinstance(b, np.ndarray) and a.dtype == b.dtype and np.array_equal(a, b)
+    if callable(a) or callable(b):
+        return type(a) is type(b) and (a is b or getattr(a, '__code__', 0) is getattr(b, '__code__', 1))
+    return type(a) is type(b) and a == b
+
+
+def is_real_scalar(x):
+    if isinstance(x, np.ndarray):
+        return x.ndim == 0 and x.dtype.kind in 'iuf'
+    return isinstance(x, (int, float, np.integer, np.floating)) and not isinstance(x, (bool, np.bool_))
+
+
+def invariant(gv, model: Model, last_given, after_clean=False):
     """returns list of (key, msg)"""
     v = []
     d = gv.__dict__
@@ -117,28 +262,32 @@ def invariant(gv, model: Model, last_given):
     if not isinstance(sps, (int, np.integer)) or isinstance(sps, bool) or sps < 1:
         v.append(('gv:sps-not-int', f'sps={sps!r}'))
         return v
+    for k in ('R', 'fs', 'dt', 'wavelength', 'f0'):
+        if not is_real_scalar(d[k]) or not float(d[k]) > 0:
+            v.append((f'gv:{k}-not-a-positive-number', f'{k}={d[k]!r}'))
+            return v
     if not close(fs, R * sps):
         v.append(('gv:fs!=R*sps', f'fs={fs} R={R} sps={sps}'))
-    if not close(dt, 1 / fs):
+    if not close(dt, 1 / float(fs)):
         v.append(('gv:dt!=1/fs', f'dt={dt} fs={fs}'))
-    if not close(d['f0'], C0 / d['wavelength']):
+    if not close(d['f0'], C0 / float(d['wavelength'])):
         v.append(('gv:f0!=c/wavelength', f'f0={d["f0"]} wl={d["wavelength"]}'))
     for k, val in last_given.items():
-        if not close(d[k], val):
+        if not close(d[k], val, 1e-7 if isinstance(val, np.float32) else 1e-12):
             v.append((f'gv:given-{k}-not-in-force', f'{k} given {val}, in force {d[k]}'))
     # N
     if d['N'] != model.N:
         v.append(('gv:N-not-in-force', f'N={d["N"]} expected {model.N}'))
     if d['N'] is not None:
-        n = d['N'] * sps
+        n = int(d['N']) * int(sps)
         t, w, dw = d['t'], d['w'], d['dw']
         if t is None or w is None or dw is None:
             v.append(('gv:grid-missing', 'N in force but t/w/dw is None'))
         else:
             if len(t) != n or len(w) != n:
                 v.append(('gv:grid-stale:len', f'N*sps={n} len(t)={len(t)} len(w)={len(w)}'))
-            elif not close(dw, 2 * pi * fs / n, 1e-9):
-                v.append(('gv:grid-stale:dw', f'dw={dw} expected {2*pi*fs/n}'))
+            elif not close(dw, 2 * pi * float(fs) / n, 1e-9):
+                v.append(('gv:grid-stale:dw', f'dw={dw} expected {2*pi*float(fs)/n}'))
             else:
                 if t[0] != 0 or not (close(t[-1], n * dt, 1e-9) or close(t[-1], (n - 1) * dt, 1e-9)):
                     v.append(('gv:grid-stale:t', f't[0]={t[0]} t[-1]={t[-1]} n*dt={n*dt}'))
@@ -154,33 +303,67 @@ def invariant(gv, model: Model, last_given):
         for k in ('t', 'w', 'dw'):
             if d[k] is not None:
                 v.append(('gv:grid-without-N', f'{k} set while N is None'))
-    # custom attributes
+    # custom attributes: exactly those given since the last clean(), with the values given last
     extra = {k: d[k] for k in d if k not in DEFAULT_KEYS}
-    if extra != model.custom:
-        v.append(('gv:custom-attrs', f'custom attrs {extra} expected {model.custom}'))
+    if set(extra) != set(model.custom) or not all(same_value(extra[k], model.custom[k]) for k in extra):
+        left = [k for k in extra if k not in model.custom]
+        rest_ok = all(k in extra and same_value(extra[k], model.custom[k]) for k in model.custom)
+        if left and rest_ok and all(callable(extra[k]) for k in left):      # can only be the survivor of an earlier clean()
+            v.append(('gv:custom-attrs:callable-survives-clean', f'custom attrs { {k: _r(x) for k, x in extra.items()} } are still there after clean()'))
+        else:
+            v.append(('gv:custom-attrs', f'custom attrs { {k: _r(x) for k, x in extra.items()} } expected { {k: _r(x) for k, x in model.custom.items()} }'))
     return v
 
 
-def canon(gv):
+_FLOAT_KEYS = ('R', 'fs', 'dt', 'wavelength', 'f0', 'dw')
+
+
+def _r(x):
+    """repr without memory addresses"""
+    if callable(x):
+        return f'<callable {getattr(x, "__qualname__", type(x).__name__)}>'
+    return repr(x)
+
+
+def canon(gv, strict=False):
+    """canonical form of the singleton.  strict=False (state identity of the search): scalars by VALUE (R = 10**9, 1e9,
+    np.float64(1e9) and array(1e9) are one state); strict=True (comparison of clean() with a new instance): types included."""
     out = []
     for k in sorted(gv.__dict__):
         x = gv.__dict__[k]
-        if isinstance(x, np.ndarray):
+        if isinstance(x, np.ndarray) and x.ndim and x.size:
             out.append((k, x.size, float(x[0]), float(x[-1]), float(x[1] - x[0]) if x.size > 1 else 0.0))
+        elif strict:
+            out.append((k, type(x).__name__, _r(x)))
+        elif k in _FLOAT_KEYS and is_real_scalar(x):
+            out.append((k, repr(float(x))))
+        elif k in ('sps', 'N') and is_real_scalar(x) and float(x) == int(x):
+            out.append((k, repr(int(x))))
         else:
-            out.append((k, repr(x)))
+            out.append((k, _r(x)))
     return repr(out)
 
 
-INITIAL = None
-
-
-def initial_canon():
+def initial_canon(strict=False):
     from opticomlib.typing import global_variables
-    return canon(global_variables())
+    return canon(global_variables(), strict)
 
 
 # ------------------------------------------------------------------ case function: expand one state
+def check_step(gv, m, act, hist_txt, viol, init_strict):
+    """one action on the real singleton and on the model; invariant afterwards; a clean() must give the state of a new instance"""
+    given = m.step(act)
+    apply(gv, act)
+    cleaning = act[0] in ('clean', 'failclean')
+    bad = invariant(gv, m, given, after_clean=cleaning)
+    if cleaning and not bad:
+        ck = canon(gv, strict=True)
+        if ck != init_strict:
+            bad.append(('gv:clean-not-initial', f'after clean(): {ck} != initial {init_strict}'))
+    for k, msg in bad:
+        viol.append((k, f'history={hist_txt}: {msg}'))
+
+
 def expand(case):
     """case = (tier, history).  Executes every action of the alphabet from the state reached by
     `history` on the real singleton; checks invariant + model on each successor."""
@@ -188,44 +371,55 @@ def expand(case):
     acts = alphabet(tier)
     viol = []
     succ = []
-    init = initial_canon()
+    init = initial_canon(strict=True)
+    gv = replay(hist)                     # the state under expansion: reached by the real calls of `hist` ...
+    state = {k: (x.copy() if isinstance(x, np.ndarray) else x) for k, x in gv.__dict__.items()}
+    m0 = Model()
+    for a in hist:
+        m0.step(a)
     for ai, act in enumerate(acts):
-        gv = replay(hist)
+        gv.__dict__.clear()               # ... and rewound to exactly that state before every action
+        gv.__dict__.update({k: (x.copy() if isinstance(x, np.ndarray) else x) for k, x in state.items()})
         if not enabled(gv, act):
             succ.append(None)
             continue
         m = Model()
-        for a in hist:
-            m.step(a)
-        given = m.step(act)
-        apply(gv, act)
-        bad = invariant(gv, m, given)
-        ck = canon(gv)
-        if act[0] == 'clean' and ck != init:
-            bad.append(('gv:clean-not-initial', f'after clean(): {ck} != initial {init}'))
-        for k, msg in bad:
-            viol.append((k, f'history={hist + [act]}: {msg}'))
-        succ.append(ck)
-    from opticomlib.typing import gv
-    gv.clean()
+        m.N, m.custom = m0.N, dict(m0.custom)
+        check_step(gv, m, act, hist + [act], viol, init)
+        succ.append(canon(gv))
+    hard_reset()
     return res(viol=viol, obs=tuple(succ), payload=succ)
 
 
 def replay_history(case):
-    """replay one full history (used for replay files / regression cases): case=(history,)"""
+    """replay one full history (used for replay files / regression cases / the custom-value part): case=(history,)"""
     hist = list(case[0])
     viol = []
     m = Model()
-    from opticomlib.typing import gv
-    gv.clean()
+    gv = hard_reset()
+    init = initial_canon(strict=True)
     for i, act in enumerate(hist):
-        given = m.step(act)
-        apply(gv, act)
-        for k, msg in invariant(gv, m, given):
-            viol.append((k, f'after step {i} of {hist}: {msg}'))
+        check_step(gv, m, act, hist[:i + 1], viol, init)
     o = canon(gv)
-    gv.clean()
-    return res(viol=viol, obs=o)
+    hard_reset()
+    return res(viol=viol, obs=o, nontrivial=('gvhist', repr(hist)))
+
+
+# ------------------------------------------------------------------ custom attributes of every kind of value
+def custom_histories(tier):
+    """a custom keyword `kappa` of every kind of value: set in one call / together with a grid and kept over a later call / in one of
+    three separate custom-carrying calls / overwritten - then clean(): nothing may be left"""
+    kinds = [0.5, 0, False, None, '', 'x', (1, 2), [1, 2], {'a': 1}, 1j, b'\x00', ('@array', 3), ('@0d', 2.0), ('@f64', 0.1), ('@i64', 7),
+             ('@callable', 'sqrt'), ('@lambda', 2.0), ('@class', 'float64')]
+    names = ['kappa', 'Vpi', '_hidden'] if tier == 'thorough' else ['kappa']
+    H = []
+    for nm in names:
+        for v in kinds:
+            H.append([('call', {nm: v}), ('clean', {})])
+            H.append([('call', {'sps': 8, 'R': 1e9, 'N': 3, nm: v}), ('call', {'R': 2e9}), ('clean', {})])
+            H.append([('call', {'alpha': 0.5}), ('call', {nm: v}), ('call', {'beta': 'x'}), ('clean', {}), ('clean', {})])
+            H.append([('call', {nm: v}), ('call', {nm: 'other'}), ('call', {'sps': 4, 'fs': 8e9, nm: v}), ('clean', {}), ('call', {'N': 1})])
+    return H
 
 
 # ------------------------------------------------------------------ driver
@@ -236,6 +430,8 @@ def run_part_a(ctx):
     ctx.rule(f'C14-A: BFS to a fixed point over histories of gv(**kw)/clean(); alphabet = every commensurate subset of '
              f'sps/R/fs/wavelength/N/custom values ({len(acts)} actions); every transition executed on the real singleton '
              f'and on the reference model; invariant checked in every successor state')
+    ctx.assume('C14-A: two states of the singleton are identified when all attributes are equal BY VALUE (R = 10**9, 1e9, np.float64(1e9) '
+               'and a 0-d array are one state); clean() is compared with a new instance including the types')
     init = initial_canon()
     seen = {init: []}
     frontier = [[]]
@@ -275,6 +471,7 @@ def run_part_a(ctx):
             msg = v['msg']
             try:
                 hist = eval(msg[len('history='):msg.index(']: ') + 1], {'inf': math.inf, 'nan': math.nan})
+                assert repr(hist) == msg[len('history='):msg.index(']: ') + 1]
                 v['case'] = (hist,)
                 v['fn'] = 'mcx.props.c14:replay_history'
             except Exception:
@@ -294,6 +491,10 @@ def run(ctx):
     for h in REGRESS:
         ctx.run_case('regress', replay_history, h)
     if 'A' in part:
+        H = custom_histories(ctx.tier)
+        ctx.rule(f'C14-A custom values: {len(H)} histories that set a custom keyword of every kind of value (numbers, None, str, containers, '
+                 f'arrays, callables) alone / with a grid / in three separate calls / overwritten, followed by clean()')
+        ctx.pmap('gvcustom', replay_history, [(h,) for h in H], horizon=60, quiet=True)
         run_part_a(ctx)
     if 'B' not in part:
         return
